@@ -470,7 +470,7 @@ func checkC03(e *Env) {
 	})
 
 	// the concurrent flavour of this monitor (C12 is the full treatment)
-	concCalls := e.concurrentSmoke(drv, "C03", e.smokePool("C03", "chk"), e.pick(2, 12), e.pick(300, 1500))
+	concCalls := e.concurrentSmoke(drv, "C03", e.smokePool("C03", "chk"), e.pick(2, 12), e.pick(300, 1500), e.smokeAcceptedValid())
 
 	// accept-set sizes per (language, word count)
 	sizes := newCounter()
